@@ -1,12 +1,16 @@
 import BareModel.Proto
 import BareModel.Diff
+import BareModel.Gen.Includes
 
 /-!
 Driver of C20.
 
-* `{"op":"diff","left":[part…],"right":[part…]}`   `diffLines(left, right)` on two arrays of strings
-* `{"op":"diffText","left":"…","right":"…"}`        `diffLines(left, right)` on two strings
+* `{"op":"diff","left":…,"right":…}`               `diffLines(left, right)`; each side an array of strings (lines, or parts that
+                                                    hold several lines) or a string
+* `{"op":"diffText","left":"…","right":"…"}`        `diffLines(left, right)` on two strings only
 * `{"op":"split","text":"…"}`                       `regexSplit(diffRegexLineSplit, text)`
+* `{"op":"includes"}`                               the table `Gen.includes` this binary (and `C20.includes_parse_validate_lintclean`)
+                                                    was built against
 
 Answer: `{"diffs":[{"type":"Identical"|"Add"|"Remove","lines":[…]}…],"stuck":false}`; `stuck` = the fuelled main loop
 returned `none` (never, by `C20.diffLoop_some`).
@@ -19,20 +23,31 @@ def blockToJson (b : Block String) : PJson :=
 
 def strsOf (xs : List PJson) : Option (List String) := xs.mapM asStr?
 
+/-- a script-level argument: a JSON string is a text, a JSON array of strings an array of parts -/
+def inputOf : PJson → Option Input
+  | .str s => some (.text s)
+  | .arr xs => (strsOf xs).map .parts
+  | _ => none
+
 def answer (l r : Input) : PJson :=
   mk [("diffs", .arr ((diffInputs l r).map blockToJson)),
       ("stuck", .bool (diffLoop l.lines r.lines).isNone)]
 
+def includeToJson (i : Gen.IncludeInfo) : PJson :=
+  mk [("name", .str i.name), ("sha256", .str i.sha256), ("parses", .bool i.parses), ("statements", .num i.statements),
+      ("validates", .bool i.validates), ("lint", ofStrs i.lint)]
+
 def handleC20 (j : PJson) : PJson :=
   match j.strD "op" with
   | "diff" =>
-      match strsOf (j.arrD "left"), strsOf (j.arrD "right") with
-      | some l, some r => answer (.parts l) (.parts r)
+      match (j.get? "left").bind inputOf, (j.get? "right").bind inputOf with
+      | some l, some r => answer l r
       | _, _ => mk [("bad", .str "diff request")]
   | "diffText" =>
       match (j.get? "left").bind asStr?, (j.get? "right").bind asStr? with
       | some l, some r => answer (.text l) (.text r)
       | _, _ => mk [("bad", .str "diffText request")]
+  | "includes" => mk [("includes", .arr (Gen.includes.map includeToJson))]
   | "split" => mk [("lines", ofStrs (splitLines (j.strD "text")))]
   | op => mk [("bad", .str ("unknown op " ++ op))]
 
